@@ -61,6 +61,7 @@ func runCase(run *vh.Run, idx int, c Case) *obs {
 	mono, monoErr := runMonolith(&c, w)
 	ob.res.monoJSON, ob.res.monoErr = mono, monoErr
 	var flatTerm, planTerm string = "None", "None"
+	var flatSS *graphql.SelectionSet
 
 	// plan and normalised query (through the verif hooks) on a separate parse
 	// normalising / planning runs under a watchdog: a change that makes it loop or blow up must end as a reported
@@ -87,6 +88,7 @@ func runCase(run *vh.Run, idx int, c Case) *obs {
 				defer func() { recover() }()
 				if f, err := g.exec.VerifFlatten(q); err == nil && f != nil {
 					flatTerm = "(Some " + goSelSet(f, true) + ")"
+					flatSS = f
 				}
 			}()
 		}
@@ -142,8 +144,15 @@ func runCase(run *vh.Run, idx int, c Case) *obs {
 		if allFed {
 			run.Hist("model:all-objects-federated")
 		}
-		ob.coq = fmt.Sprintf("mk_case %s %s %s %s %s %s %s %s (Some %s) %s", info.term, calls, orgs, qTerm, vh.CoqBool(info.explicit),
-			flatTerm, planTerm, answerTerm, vh.CoqJSON(refC), vh.CoqBool(allFed))
+		// the premises of Props/C06.federation_transparent, as far as the harness can see them (the Coq side
+		// evaluates the precise ones on every case counted here)
+		inScope := allFed && !fieldDirectives(c.Query, frags, map[string]bool{}) && flatSS != nil && planTerm != "None" &&
+			answerTerm != "None" && flatInScope(flatSS, "Query", retMap(c.Services))
+		if inScope {
+			run.Hist("model:premises-of-transparency-theorem-hold")
+		}
+		ob.coq = fmt.Sprintf("mk_case %s %s %s %s %s %s %s %s (Some %s) %s %s", info.term, calls, orgs, qTerm, vh.CoqBool(info.explicit),
+			flatTerm, planTerm, answerTerm, vh.CoqJSON(refC), vh.CoqBool(allFed), vh.CoqBool(inScope))
 	}()
 	g.mu.Lock()
 	ob.res.subs = append([]subRequest{}, g.log...)
@@ -238,6 +247,77 @@ func runCase(run *vh.Run, idx int, c Case) *obs {
 		run.Sample(map[string]interface{}{"query": short(text, 300), "services": len(c.Services), "subrequests": nSub, "result": short(js(mono), 200)})
 	}
 	return ob
+}
+
+// fieldDirectives: some field selection of the query (through inline and named fragments) carries a directive.
+func fieldDirectives(sels []Sel, frags map[string]FragDef, seen map[string]bool) bool {
+	for _, s := range sels {
+		switch {
+		case s.Spread != "":
+			if !seen[s.Spread] {
+				seen[s.Spread] = true
+				if fieldDirectives(frags[s.Spread].Subs, frags, seen) {
+					return true
+				}
+			}
+		case s.On != "":
+			if fieldDirectives(s.Subs, frags, seen) {
+				return true
+			}
+		default:
+			if s.Dir != nil || fieldDirectives(s.Subs, frags, seen) {
+				return true
+			}
+		}
+	}
+	return false
+}
+
+// flatInScope: the gateway's normalised query has no directive left and every selection on a union-typed field
+// has a non-empty fragment for every member of the union (Coq: flat_ok).
+func flatInScope(ss *graphql.SelectionSet, typ string, rets map[string]fedgen.Ret) bool {
+	if ss == nil {
+		return true
+	}
+	for _, s := range ss.Selections {
+		if len(s.Directives) > 0 {
+			return false
+		}
+		if s.Name == "__typename" {
+			continue
+		}
+		ret, ok := rets[typ+"."+s.Name]
+		if !ok {
+			// the key fields id and org: scalars
+			if s.SelectionSet != nil {
+				return false
+			}
+			continue
+		}
+		switch ret.Kind {
+		case "obj":
+			if s.SelectionSet == nil || len(s.SelectionSet.Fragments) > 0 || !flatInScope(s.SelectionSet, ret.Target, rets) {
+				return false
+			}
+		case "union":
+			if s.SelectionSet == nil || len(s.SelectionSet.Selections) > 0 {
+				return false
+			}
+			for _, m := range fedgen.UnionMembers[ret.Target] {
+				found := false
+				for _, f := range s.SelectionSet.Fragments {
+					if f.On == m && len(f.Directives) == 0 && f.SelectionSet != nil && len(f.SelectionSet.Selections) > 0 &&
+						len(f.SelectionSet.Fragments) == 0 && flatInScope(f.SelectionSet, m, rets) {
+						found = true
+					}
+				}
+				if !found {
+					return false
+				}
+			}
+		}
+	}
+	return len(ss.Fragments) == 0 || typ == ""
 }
 
 // within runs f in a goroutine and reports whether it finished in time.
